@@ -20,9 +20,14 @@ Definition affv (a : affine) : val :=
 Definition dhv (r : ecdh_result) : val := match r with Secret bs => VBytes bs | _ => VErr end.
 
 Section Ec.
-  Variable c : curve.
-  Hypothesis p_pos : 0 < cp c.
-  Hypothesis p_small : cp c <= 2 ^ 256.        (* coordinates fit in 32 bytes *)
+  (* any curve with a positive modulus that fits in 32 bytes; the modulus is written Z.pos pp so
+     that Python's "x % p" (ZeroDivisionError for p = 0) evaluates without a side condition *)
+  Variable pp : positive.
+  Variables ca0 cb0 cn0 cgx0 cgy0 : Z.
+  Definition c : curve := mk_curve (Z.pos pp) ca0 cb0 cn0 cgx0 cgy0.
+  Hypothesis p_small : Z.pos pp <= 2 ^ 256.        (* coordinates fit in 32 bytes *)
+  Lemma p_pos : 0 < cp c.
+  Proof using. reflexivity. Qed.
 
   Definition as_jac (v : val) : option jac :=
     match v with VTuple [VInt x; VInt y; VInt z] => Some (x, y, z) | _ => None end.
@@ -110,21 +115,19 @@ Section Ec.
   Ltac py_step :=
     cbv -[Z.eqb Z.ltb Z.leb Z.add Z.sub Z.mul Z.pow Z.modulo Z.div Z.lxor Z.land Z.lor Z.shiftl Z.shiftr
           Z.min Z.max Z.to_nat Z.of_nat len be_int to_be modinv jac_double jac_add jac_mul to_affine on_curve
-          ecdh public_key jac_inf cp ca cb cn cgx cgy fst snd];
+          ecdh public_key jac_inf fst snd];
+    fold c;
     cbn [fst snd];
     fold_consts.
-
-  Lemma p_nz : (cp c =? 0) = false.
-  Proof using p_pos. apply Z.eqb_neq. lia. Qed.
 
   Lemma jac_eta : forall P : jac, (fst (fst P), snd (fst P), snd P) = P.
   Proof using. intros [[x y] z]. reflexivity. Qed.
 
-  Ltac py := unfold run, call; repeat progress (py_step; rewrite ?p_nz, ?jac_eta).
+  Ltac py := unfold run, call; repeat progress (py_step; rewrite ?jac_eta).
 
   Theorem jac_double_matches_source : forall P,
     run (("self", jacv P) :: jac_env P) src_jac_double_params src_jac_double [jacv P] = jacv (jac_double c P).
-  Proof using p_pos.
+  Proof using.
     intros [[x y] z]. unfold jac_double. py.
     destruct (z =? 0); [reflexivity|].
     destruct (y =? 0); reflexivity.
@@ -132,20 +135,20 @@ Section Ec.
 
   Theorem jac_add_matches_source : forall P Q,
     run (("self", jacv P) :: jac_env P) src_jac_add_params src_jac_add [jacv P; jacv Q] = jacv (jac_add c P Q).
-  Proof using p_pos.
+  Proof using.
     intros [[x1 y1] z1] [[x2 y2] z2]. unfold jac_add. py.
     destruct (z1 =? 0); destruct (z2 =? 0); try reflexivity.
     cbn [andb].
-    destruct ((x1 * z2 ^ 2) mod cp c =? (x2 * z1 ^ 2) mod cp c); [|reflexivity].
-    destruct ((y1 * z2 ^ 3) mod cp c =? (y2 * z1 ^ 3) mod cp c); reflexivity.
+    destruct ((x1 * z2 ^ 2) mod Z.pos pp =? (x2 * z1 ^ 2) mod Z.pos pp); [|reflexivity].
+    destruct ((y1 * z2 ^ 3) mod Z.pos pp =? (y2 * z1 ^ 3) mod Z.pos pp); reflexivity.
   Qed.
 
   Theorem jac_to_affine_matches_source : forall P,
     run (("self", jacv P) :: jac_env P) src_jac_to_affine_params src_jac_to_affine [jacv P] = affv (to_affine c P).
-  Proof using p_pos.
+  Proof using.
     intros [[x y] z]. unfold to_affine. py.
     destruct (z =? 0); [reflexivity|].
-    destruct (modinv z (cp c)); reflexivity.
+    destruct (modinv z (Z.pos pp)); reflexivity.
   Qed.
 
   Theorem jac_from_affine_matches_source : forall x y,
@@ -156,19 +159,19 @@ Section Ec.
   Theorem is_on_curve_matches_source : forall x y,
     run (("self", VStr "curve") :: curve_env) src_is_on_curve_params src_is_on_curve
         [VStr "curve"; VTuple [VInt x; VInt y; VBool false]] = VBool (on_curve c x y).
-  Proof using p_pos. intros. unfold on_curve. py. reflexivity. Qed.
+  Proof using. intros. unfold on_curve. py. reflexivity. Qed.
 
   Lemma affine_coord_fits : forall P x y, to_affine c P = Affine x y ->
     ((0 <=? x) && (x <? 256 ^ 32)) = true /\ ((0 <=? y) && (y <? 256 ^ 32)) = true.
-  Proof using p_pos p_small.
+  Proof using p_small.
     intros [[X Y] Z0] x y E. destruct (to_affine_correct c _ _ _ _ _ p_pos E) as (_ & _ & Hx & Hy).
-    change (256 ^ 32) with (2 ^ 256). lia.
+    change (cp c) with (Z.pos pp) in Hx, Hy. change (256 ^ 32) with (2 ^ 256). lia.
   Qed.
 
   Theorem ecdh_shared_secret_matches_source : forall d x y,
     run (("self", VStr "curve") :: curve_env) src_ecdh_shared_secret_params src_ecdh_shared_secret
         [VStr "curve"; VInt d; VTuple [VInt x; VInt y; VBool false]] = dhv (ecdh c d x y).
-  Proof using p_pos p_small.
+  Proof using p_small.
     intros. unfold ecdh, from_affine. py.
     destruct (on_curve c x y); [|reflexivity]. cbn [negb].
     destruct (to_affine c (jac_mul c (x, y, 1) d)) as [|sx sy|] eqn:E; try reflexivity.
@@ -181,15 +184,15 @@ Section Ec.
   Theorem generate_public_key_matches_source : forall d,
     run (("self", VStr "curve") :: curve_env) src_generate_public_key_params src_generate_public_key
         [VStr "curve"; VInt d] = affv (public_key c d).
-  Proof using p_pos.
+  Proof using.
     intros. unfold public_key. py.
-    destruct (to_affine c (jac_mul c (cgx c, cgy c, 1) d)); reflexivity.
+    destruct (to_affine c (jac_mul c (cgx0, cgy0, 1) d)); reflexivity.
   Qed.
 
   Theorem ecc_dh_matches_source : forall d xb yb,
     run (("self", VStr "key") :: key_env d) src_ecc_dh_params src_ecc_dh [VStr "key"; VBytes xb; VBytes yb] =
     dhv (ecc_dh c d xb yb).
-  Proof using p_pos.
+  Proof using.
     intros. unfold ecc_dh. py.
     destruct (ecdh c d (be_int xb) (be_int yb)); reflexivity.
   Qed.
@@ -199,7 +202,7 @@ Section Ec.
       match ecc_public c d with Some (xs, _) => VBytes xs | None => VErr end /\
     run (("self", VStr "key") :: key_env d) src_ecc_y_params src_ecc_y [VStr "key"] =
       match ecc_public c d with Some (_, ys) => VBytes ys | None => VErr end.
-  Proof using p_pos p_small.
+  Proof using p_small.
     intros d. unfold ecc_public. py.
     destruct (public_key c d) as [|x y|] eqn:E.
     - split; reflexivity.
